@@ -141,6 +141,8 @@ def check_dec_a_c(item):
 
     def fn(path):
         m.reset(path)
+        # the handler is only ever installed for opcode 0x3D
+        path.assume(z3.Select(m.mem0, z3.Extract(15, 0, m.regs0[24])) == 0x3D)
         acc()
         cst = CM.state(m.regs0, m.mem0)
         cst.args = [0, 0, 0, 1, 1, 0, 0]
@@ -163,7 +165,10 @@ def check_dec_a_c(item):
         if r == 'unknown':
             res['inconclusive'].append(name); return
         if r == 'sat' or p.failed_obligations():
-            res['violations'].append(dict(key=name, text='%s differ in %s' % (name, which), case=dict(kind='none')))
+            if mod is None:
+                r, mod = p.check(model=True)
+            regs, mem, _ = simcheck.model_state(mod, m)
+            res['violations'].append(dict(key=name, text='%s differ in %s from registers %r, memory %r' % (name, which, regs, mem), case=dict(kind='dec_a_c', regs=regs, mem=mem)))
             return
         res['discharged'] += 1
         res['nontrivial'] += 1
@@ -281,6 +286,54 @@ def work(item):
 
 
 # ---------------------------------------------------------------------------
+def replay_dec_a_c(case):
+    """the Python LoadTracer and the compiled C loader (built from the current source) each execute the instruction at PC with
+    both DEC A accelerations enabled, through the real LoadTracer.run; stop address = where the Python accelerator lands"""
+    import contextlib
+    import io
+    import csim
+    import skoolkit.loadtracer as lt
+    import skoolkit.simulator as sm
+    from skoolkit.tape import TapeBlock, TapeBlockTimings
+    if 'regs' not in case:
+        return False, 'no input'
+    mem, default = simcheck.mem_from_case(case['mem'])
+    regs = list(case['regs'])
+    ext = csim.build_extension(False)
+    # where does the Python accelerator land?
+    probe = sm.Simulator(simcheck.mem_list(mem, default))
+    probe.registers[:] = regs
+    t = lt.LoadTracer.__new__(lt.LoadTracer)
+    t.simulator = probe
+    t.dec_a_jr_hits = t.dec_a_jp_hits = t.dec_a_misses = 0
+    t.dec_a(1, 2)()
+    stop = probe.registers[24]
+    cfg = {'frame_duration': 69888, 'int_active': 32, 'fast_djnz': False, 'fast_ldir': False}
+    results = []
+    for cls in (sm.Simulator, ext.CSimulator):
+        memory = simcheck.mem_list(mem, default)
+        if cls is sm.Simulator:
+            sim = cls(memory, None, None, cfg)
+        else:
+            sim = cls(bytearray(memory), None, None, cfg)
+        for i, v in enumerate(regs):
+            sim.registers[i] = v
+        blocks = [TapeBlock(1, [0xFF, 0, 0xFF], TapeBlockTimings([(10, 2168)], (855, 855), (1710, 1710), 0))]
+        for b in blocks:
+            b.keys = None
+        config = dict(first_edge=0, polarity=0, pause=1, in_min_addr=0x8000, accelerators=set(), accelerate_dec_a=3, list_accelerators=False, stop=stop, fast_load=0,
+                      finish_tape=0, timeout=regs[25] + 200000, tracefile=None, trace_line='', prefix='', byte_fmt='', word_fmt='')
+        tracer = lt.LoadTracer(sim, blocks, config, None)
+        sim.set_tracer(tracer, False, False) if hasattr(sim, 'set_tracer') else None
+        with contextlib.redirect_stdout(io.StringIO()):
+            tracer.run(0, 0, 0, [0] * 16, 0)
+        results.append(list(sim.registers))
+    if regs[26] and False:
+        pass
+    bad = ['%s: Python %d, C %d' % (sh.REG_NAMES[i], results[0][i], results[1][i]) for i in range(29) if results[0][i] != results[1][i]]
+    return bool(bad), ('LoadTracer.run over the instruction at %d: ' % regs[24]) + ('; '.join(bad) if bad else 'identical')
+
+
 def replay(case):
     if case['kind'] == 'dec_a':
         import skoolkit.loadtracer as lt
@@ -309,6 +362,8 @@ def replay(case):
         if outs[0][1] != outs[1][1]:
             bad.append('memory')
         return bool(bad), 'accelerated vs real loop differ in %s' % bad if bad else 'identical'
+    if case['kind'] == 'dec_a_c':
+        return replay_dec_a_c(case)
     if case['kind'] == 'loop':
         # concrete trip round the loop on the real simulator
         from skoolkit.loadsample import ACCELERATORS, BYTE, Accelerator
